@@ -146,6 +146,9 @@ func (x *Exec) tryComprehension(fr *Frame, li *loopInfo, pred *ssa.BasicBlock, s
 				return nil, false
 			}
 		case *ssa.Call:
+			if cal := v.Call.StaticCallee(); cal != nil && trivialGetter(cal) {
+				continue // r.Name() and the like: a field read behind a method
+			}
 			b, ok := v.Call.Value.(*ssa.Builtin)
 			if !ok || b.Name() != "append" || app != nil || v.Call.Args[0] != phiA {
 				return nil, false
@@ -251,6 +254,12 @@ func (x *Exec) tryComprehension(fr *Frame, li *loopInfo, pred *ssa.BasicBlock, s
 	fo.env[cmp] = tFalse
 	so := st.clone()
 	so.note(h.Instrs[0].Pos(), "list comprehension over %s summarised", x.val(fr, src))
+	if fam.Op == "list" && srcT.Op == "list" {
+		// the image of an abstract list: same length, and its provenance is kept
+		// so that rules can read it as "e of the members of src"
+		so.setFact(tEq(mk("len", "", types.Typ[types.Int], fam), mk("len", "", types.Typ[types.Int], srcT)), true)
+		so.mem["famsrc:"+fam.key] = cell{fam, srcT}
+	}
 	x.NComprehended++
 	return []blockOut{{kind: outLoopExit, st: so, fr: fo, target: exit, from: h}}, true
 }
@@ -310,4 +319,24 @@ func (x *Exec) membersOf(st *State, fr *Frame, id string, a *Term) []*Term {
 		return nil
 	}
 	return listMembers(a)
+}
+
+// trivialGetter: a single-block function that only reads fields of its
+// arguments and returns.
+func trivialGetter(f *ssa.Function) bool {
+	if len(f.Blocks) != 1 {
+		return false
+	}
+	for _, ins := range f.Blocks[0].Instrs {
+		switch v := ins.(type) {
+		case *ssa.FieldAddr, *ssa.Field, *ssa.Return, *ssa.DebugRef:
+		case *ssa.UnOp:
+			if v.Op != token.MUL {
+				return false
+			}
+		default:
+			return false
+		}
+	}
+	return true
 }
